@@ -1,13 +1,47 @@
 """C12  Kinetic reactions transfer exactly what they integrate, within tolerance.
 
-Shape L: full lattice  rate-law family x (k*T) x tolerance x integrator x -bad_step_max x context, and inside every
+Shape L: full lattice  rate-law family x (k*T) x tolerance x integrator x -bad_step_max x m0 x context, and inside every
 lattice point every division of T into steps x INCREMENTAL_REACTIONS.  Every point is executed on the real library;
-the oracle is the closed-form solution of the rate law (mc/oracles/kin_exact.py) and the invariances the statement
-lists.  Tolerance everywhere: 100 x the user tolerance (-tol, moles), as the statement says.
+the oracle is the closed-form solution of the rate law (mc/oracles/kin_exact.py, textbook ODE solutions) and the
+invariances the statement lists.  Tolerance everywhere: 100 x the user tolerance (-tol, absolute moles per reactant),
+as the statement says.
 
-One *case* = (family, x, m0, tol, integrator, bad_step_max, context); it performs one engine run per
+One *case* = (family, kT, m0, tol, integrator, bad_step_max, context); it performs one engine run per
 (division, incremental) - 8 in batch, 6 in ADVECTION / TRANSPORT - plus the same runs with the reference integrator
-(-runge_kutta 6, default -bad_step_max; cached per worker) for the integrator-invariance relation.
+(-runge_kutta 6, -bad_step_max 500; cached per worker) for the integrator-invariance relation.
+
+Relations judged (R1: nothing else is a violation)
+  negative-amount            a reported reactant amount < 0
+  exact-solution-miss        |reported - closed form| > 100 tol, *per KINETICS calculation*: the closed form is started from
+                             the state the calculation started from (time zero for cumulative steps; the previously reported
+                             state for INCREMENTAL_REACTIONS true and for each ADVECTION / TRANSPORT shift) - the manual's
+                             -tol bounds the error estimate of each integration interval, the statement allows 100 x that
+                             for a calculation; it does not promise a bound on the drift accumulated over many calculations
+                             except through the three invariances below
+  transfer-mismatch          moles that left the reactants x formula = moles that arrived in the solution (batch: cumulative,
+                             ADVECTION: per shift; relative 1e-6 of the inventory as in C02)
+  step-division-dependence   amount at T for a division of T vs. one step, same INCREMENTAL_REACTIONS, > 100 tol
+  incremental-dependence     same division, INCREMENTAL_REACTIONS true vs false, any reported time, > 100 tol
+  integrator-dependence      same input with -runge_kutta 6, any reported time, > 100 tol
+  (a run that already misses its closed form is reported under that relation only).
+Runs with rc != 0 / ERROR are counted as not completed and not judged (R2; cvode with -bad_step_max 10 legitimately
+stops with 'CVode is at maximum calls').
+
+Calibration on the unchanged tree (R5), what was changed against the first version of this check
+  * ADVECTION / TRANSPORT inputs now carry 'USE solution none': a simulation that defines SOLUTION and KINETICS runs the
+    implicit batch reaction over the default 1 s first and keeps its result in the KINETICS entity (manual), so every
+    reactant entered shift 1 already 1 s old and every closed form / transfer relation was off by k*1 s.  Oracle error.
+  * closed form per calculation instead of from time zero for chained calculations (see above).  Oracle stricter than text.
+  * explicit-time law (rate reads TOTAL_TIME) dropped from the claim: the statement lists zero-order, first-order and
+    coupled linear laws, and the manual defines TOTAL_TIME as the cumulative-time read-out, not its value inside an
+    integration interval.  The family is still run (first bound, DIAGNOSTIC ONLY) and what it shows is written to
+    coverage.diagnostics: -runge_kutta 1 evaluates its acceptance test with the time of the step start, cvode freezes
+    TOTAL_TIME at the start of each internal step (reading kinetics.cpp run_reactions: a -cvode_steps restart also
+    rewinds it to the interval start; not separately observed).
+  * genuine as the statement stands (kept, fingerprints carry integrator, tol and size class):
+    -cvode with -cvode_order 2 at -tol <= 1e-8 misses the closed form of a single calculation by 100..600 x tol.
+Fingerprint = relation + integrator option + tolerance (+ size class '1e2..1e3xtol' | '>=1e3xtol'); rate family, kT and
+context are in the explanation.
 """
 import math
 import os
